@@ -17,7 +17,7 @@ import (
 
 // C05 — a diff is empty exactly when the documents are equal; CLI exit 0/1.
 
-var c05OptSets = []string{"list", "set", "mset", "setkeys:id", "setkeys:id,k", "merge", "set+merge", "mset+merge", "set+mset", "mset+set"}
+var c05OptSets = []string{"list", "set", "mset", "setkeys:id", "setkeys:id,k", "setkeys:id,k,a", "setkeys:id,k,a", "merge", "set+merge", "mset+merge", "set+mset", "mset+set"}
 
 func checkC05(c PairCase, r *rec.Rec) error {
 	av, err := val.Parse(c.A)
@@ -323,9 +323,9 @@ func optFlags(opts string) []string {
 
 func genC05CLI(t *rapid.T) CLIPairCase {
 	pc := genC05(t)
-	if pc.Opts == "setkeys:id,k" {
-		pc = genC05(t) // the two-key option set is decided in the library leg (D21 predicate)
-		if pc.Opts == "setkeys:id,k" {
+	if strings.HasPrefix(pc.Opts, "setkeys:id,k") {
+		pc = genC05(t) // the multi-key option sets are decided in the library leg (D21 predicate)
+		if strings.HasPrefix(pc.Opts, "setkeys:id,k") {
 			pc.Opts = "list"
 		}
 	}
